@@ -31,6 +31,16 @@ pub enum Case {
         #[serde(default)]
         gene: u8,
     },
+    /// parents of a *user-defined* genome type (own `Linear` + `Crossover` impls with tagged genes) through the
+    /// generic `G: Crossover` recombinators; its exchange primitives fail at the `fail_call`-th call (if any)
+    Custom {
+        two_point: bool,
+        tuple: bool,
+        n1: usize,
+        n2: usize,
+        script: Vec<u64>,
+        fail_call: Option<u8>,
+    },
     Gene {
         a: Vec<bool>,
         b: Vec<bool>,
@@ -152,6 +162,138 @@ fn recombine_bits<R: rand::Rng>(two_point: bool, tuple: bool, p1: &[bool], p2: &
     }
 }
 
+thread_local! {
+    /// (exchange-primitive calls made so far, call number that fails)
+    static CUSTOM_CALLS: std::cell::Cell<(u32, Option<u32>)> = const { std::cell::Cell::new((0, None)) };
+}
+
+/// A genome type a user of the library could write: tagged genes in a `VecDeque`, with its own (correct)
+/// exchange primitives, which can be told to fail at a given call.
+#[derive(Clone, Debug)]
+pub struct TagGenome(pub std::collections::VecDeque<Tag>);
+
+#[derive(Debug, PartialEq, Eq)]
+pub enum TagErr {
+    Scripted(u32),
+    OutOfBounds,
+}
+
+impl ec_core::genome::Genome for TagGenome {
+    type Gene = Tag;
+}
+impl ec_linear::genome::Linear for TagGenome {
+    fn size(&self) -> usize {
+        self.0.len()
+    }
+    fn gene_mut(&mut self, index: usize) -> Option<&mut Tag> {
+        self.0.get_mut(index)
+    }
+}
+impl TagGenome {
+    fn count_call() -> Result<(), TagErr> {
+        CUSTOM_CALLS.with(|c| {
+            let (n, fail) = c.get();
+            c.set((n + 1, fail));
+            if fail == Some(n) {
+                Err(TagErr::Scripted(n))
+            } else {
+                Ok(())
+            }
+        })
+    }
+}
+impl Crossover for TagGenome {
+    type GeneCrossoverError = TagErr;
+    type SegmentCrossoverError = TagErr;
+    fn crossover_gene(&mut self, other: &mut Self, index: usize) -> Result<(), TagErr> {
+        Self::count_call()?;
+        match (self.0.get_mut(index), other.0.get_mut(index)) {
+            (Some(a), Some(b)) => {
+                std::mem::swap(a, b);
+                Ok(())
+            }
+            _ => Err(TagErr::OutOfBounds),
+        }
+    }
+    fn crossover_segment(&mut self, other: &mut Self, range: std::ops::Range<usize>) -> Result<(), TagErr> {
+        Self::count_call()?;
+        if range.start > range.end || range.end > self.0.len() || range.end > other.0.len() {
+            return Err(TagErr::OutOfBounds);
+        }
+        for i in range {
+            std::mem::swap(&mut self.0[i], &mut other.0[i]);
+        }
+        Ok(())
+    }
+}
+
+enum CustomOut {
+    Child(Vec<Option<u8>>),
+    LenErr(usize, usize),
+    Primitive(TagErr),
+}
+
+fn recombine_custom<R: rand::Rng>(two_point: bool, tuple: bool, n1: usize, n2: usize, fail_call: Option<u8>, rng: &mut R) -> (CustomOut, u32) {
+    let a = TagGenome((0..n1 as u32).map(|i| (1u8, i)).collect());
+    let b = TagGenome((0..n2 as u32).map(|i| (2u8, i)).collect());
+    CUSTOM_CALLS.with(|c| c.set((0, fail_call.map(u32::from))));
+    fn conv(r: Result<TagGenome, CrossoverGeneError<TagErr>>) -> CustomOut {
+        match r {
+            Ok(child) => CustomOut::Child(child.0.iter().enumerate().map(|(i, (p, pos))| if *pos as usize == i && (*p == 1 || *p == 2) { Some(*p) } else { None }).collect()),
+            Err(CrossoverGeneError::DifferentGenomeLength(d)) => CustomOut::LenErr(d.0, d.1),
+            Err(CrossoverGeneError::Crossover(e)) => CustomOut::Primitive(e),
+        }
+    }
+    let out = match (two_point, tuple) {
+        (true, false) => conv(TwoPointXo.recombine([a, b], rng)),
+        (true, true) => conv(TwoPointXo.recombine((a, b), rng)),
+        (false, false) => conv(UniformXo.recombine([a, b], rng)),
+        (false, true) => conv(UniformXo.recombine((a, b), rng)),
+    };
+    let calls = CUSTOM_CALLS.with(|c| c.replace((0, None)).0);
+    (out, calls)
+}
+
+fn custom_case(two_point: bool, tuple: bool, n1: usize, n2: usize, script: &[u64], fail_call: Option<u8>, probe: &mut Probe) -> Result<(), Fail> {
+    let name = format!("{}<user-defined genome{}>", if two_point { "TwoPointXo" } else { "UniformXo" }, if tuple { ",tuple" } else { "" });
+    let mut rng = ScriptRng::new(script, 0xC0570);
+    let (out, calls) = match guarded(|| recombine_custom(two_point, tuple, n1, n2, fail_call, &mut rng)) {
+        Ok(r) => r,
+        Err(p) => {
+            CUSTOM_CALLS.with(|c| c.set((0, None)));
+            fail!(format!("{name}/panic"), "recombining user-defined genomes of lengths {n1} and {n2} panicked: {p} ({})", panic_key(&p))
+        }
+    };
+    probe.label("user-defined genome type through the generic recombinators");
+    let failed = fail_call.is_some_and(|f| u32::from(f) < calls);
+    match out {
+        CustomOut::LenErr(a, b) => {
+            ensure!(n1 != n2, format!("{name}/spurious-error"), "equal-length parents ({n1}) rejected with DifferentGenomeLength({a}, {b})");
+            ensure!((a, b) == (n1, n2) || (a, b) == (n2, n1), format!("{name}/length-error-payload"), "DifferentGenomeLength({a}, {b}) for parents of lengths {n1} and {n2}");
+            probe.nontrivial = true;
+            probe.label("different lengths");
+        }
+        CustomOut::Primitive(e) => {
+            // the genome's own exchange primitive refused: that very error has to come back
+            ensure!(n1 == n2, format!("{name}/different-lengths-wrong-error"), "parents of lengths {n1} and {n2}: error {e:?} instead of DifferentGenomeLength");
+            ensure!(
+                failed && fail_call.map(|f| TagErr::Scripted(u32::from(f))) == Some(e),
+                format!("{name}/primitive-error-not-passed-on"),
+                "the genome's exchange primitive was called {calls} times and told to fail at call {fail_call:?}; the recombinator reported an error the primitive did not raise there"
+            );
+            probe.nontrivial = true;
+            probe.label("the genome's exchange primitive failed and the error was passed on");
+        }
+        CustomOut::Child(src) => {
+            ensure!(n1 == n2, format!("{name}/different-lengths-accepted"), "parents of lengths {n1} and {n2} produced a child of {} genes instead of an error", src.len());
+            ensure!(!failed, format!("{name}/primitive-error-swallowed"), "the genome's exchange primitive failed at call {fail_call:?} (of {calls}) but the recombinator returned a child");
+            let mixed = check_sources(&name, two_point, n1, &src)?;
+            probe.nontrivial = n1 >= 2 && mixed;
+        }
+    }
+    Ok(())
+}
+
 fn check_sources(name: &str, two_point: bool, n: usize, src: &[Option<u8>]) -> Result<bool, Fail> {
     ensure!(
         src.len() == n,
@@ -184,6 +326,7 @@ fn check_sources(name: &str, two_point: bool, n: usize, src: &[Option<u8>]) -> R
 
 pub fn oracle(case: &Case, probe: &mut Probe) -> Result<(), Fail> {
     match case {
+        Case::Custom { two_point, tuple, n1, n2, script, fail_call } => custom_case(*two_point, *tuple, *n1, *n2, script, *fail_call, probe),
         Case::Recombine {
             two_point,
             tuple,
@@ -402,7 +545,16 @@ pub fn strategy(max_len: usize) -> BoxedStrategy<Case> {
         let (la, lb) = (a.len(), b.len());
         (Just(a), Just(b), index_near(la, lb), index_near(la, lb)).prop_map(|(a, b, start, end)| Case::Segment { a, b, start, end })
     });
-    prop_oneof![5 => recombine, 2 => gene, 3 => segment].boxed()
+    let custom = (
+        any::<bool>(),
+        any::<bool>(),
+        prop_oneof![4 => 0usize..=12usize.min(max_len), 1 => 0usize..=max_len],
+        prop_oneof![5 => Just(None::<usize>), 1 => (0usize..=max_len).prop_map(Some)],
+        crate::rngs::script_strategy(16),
+        prop_oneof![3 => Just(None::<u8>), 1 => (0u8..4).prop_map(Some), 1 => any::<u8>().prop_map(Some)],
+    )
+        .prop_map(|(two_point, tuple, n1, other, script, fail_call)| Case::Custom { two_point, tuple, n1, n2: other.unwrap_or(n1), script, fail_call });
+    prop_oneof![5 => recombine, 2 => gene, 3 => segment, 2 => custom].boxed()
 }
 
 /// every interval [a,b) with 0 <= a < b <= len, and the empty segment, must occur over seeds
@@ -661,7 +813,7 @@ fn uniform_independence_long(ctx: &mut Ctx) {
 }
 
 pub fn run(ctx: &mut Ctx) {
-    ctx.rule = "generated parent pairs (tagged (parent, position) vectors with four gene types of different width and ownership; complementary or random bitstrings) of equal and different lengths through TwoPointXo / UniformXo in all four impls x array/tuple forms with a generated random stream; generated crossover_gene / crossover_segment calls with indices around both lengths, usize::MAX and inverted ranges; plus a second pass with parents of up to 700 genes, seeded coverage of all two-point segments for len <= 6 and of the segment classes (touching the start, touching the end, empty, strictly inside) for len 33..257 the exact 2^-len law of uniform-crossover source patterns for len <= 4, and on parents of 70 / 130 / 520 genes the per-position rate 1/2 and the agreement law 1/2 of disjoint position pairs at lags 1..257 (independence at a distance). non-trivial = len >= 2 and the child mixes both parents, or any misuse / primitive case; distinct by JSON encoding".into();
+    ctx.rule = "generated parent pairs (tagged (parent, position) vectors with four gene types of different width and ownership; complementary or random bitstrings; a user-defined genome type with its own Linear + Crossover impls over a VecDeque of tagged genes, whose exchange primitives fail at a generated call - that error must come back and no child) of equal and different lengths through TwoPointXo / UniformXo in all four impls x array/tuple forms with a generated random stream; generated crossover_gene / crossover_segment calls with indices around both lengths, usize::MAX and inverted ranges; plus a second pass with parents of up to 700 genes, seeded coverage of all two-point segments for len <= 6 and of the segment classes (touching the start, touching the end, empty, strictly inside) for len 33..257 the exact 2^-len law of uniform-crossover source patterns for len <= 4, and on parents of 70 / 130 / 520 genes the per-position rate 1/2 and the agreement law 1/2 of disjoint position pairs at lags 1..257 (independence at a distance). non-trivial = len >= 2 and the child mixes both parents, or any misuse / primitive case; distinct by JSON encoding".into();
     ctx.assumptions.push("coverage check assumes every admissible two-point segment has probability >= 1/(len+1)^2; contents after an Err are not checked; an inverted range may return Ok (unchanged) or Err".into());
     let (n, max_len) = ctx.tier.pick((150_000u32, 60usize), (3_000_000, 500));
     ctx.run_prop("generated_cases", n, move || strategy(max_len), oracle);
